@@ -2,6 +2,7 @@ package matchprop
 
 import (
 	"pgregory.net/rapid"
+	"reflect"
 )
 
 // Generators shared by the random, server and in-flight parts.
@@ -198,6 +199,11 @@ func (c cfg) subList(t *rapid.T, targets []string) *SubList {
 }
 
 func (c cfg) origin(t *rapid.T) string {
+	if c.level > 0 && one(t, 5, "well-known-origin") {
+		// names that implementations of the mixed-schema rules treat specially ("openconfig" is the
+		// default origin there); to this server every origin is an ordinary index string
+		return rapid.SampledFrom([]string{"openconfig", "openconfig", "cli", "OpenConfig"}).Draw(t, "origin-name")
+	}
 	for {
 		if o := c.atom(t, []string{"a", "b"}, "origin"); o != "" { // an empty origin is no origin
 			return o
@@ -462,7 +468,50 @@ func resolveSeq(raw []rawOp) *Scenario {
 
 func genScenario(t *rapid.T) *Scenario {
 	c := genCfg(t)
-	return resolveSeq(rapid.SliceOfN(rapid.Custom(c.rawOp), 1, 30).Draw(t, "ops"))
+	sc := resolveSeq(rapid.SliceOfN(rapid.Custom(c.rawOp), 1, 30).Draw(t, "ops"))
+	sprinkleStray(t, reflect.ValueOf(sc))
+	return sc
+}
+
+// sprinkleStray visits every path of a finished scenario (in declaration order) and lets, in one
+// scenario out of four, a sixth of the structured ones also carry deprecated string elements.
+func sprinkleStray(t *rapid.T, v reflect.Value) {
+	if !one(t, 4, "stray-scenario") {
+		return
+	}
+	var walk func(v reflect.Value)
+	walk = func(v reflect.Value) {
+		switch v.Kind() {
+		case reflect.Ptr, reflect.Interface:
+			if v.IsNil() {
+				return
+			}
+			if g, ok := v.Interface().(*GPath); ok {
+				if !g.Legacy && len(g.Elems) > 0 && one(t, 6, "stray") {
+					g.Stray = true
+				}
+				return
+			}
+			walk(v.Elem())
+		case reflect.Struct:
+			if v.Type() == reflect.TypeOf(GPath{}) {
+				if v.CanAddr() {
+					walk(v.Addr())
+				}
+				return
+			}
+			for i := 0; i < v.NumField(); i++ {
+				if v.Type().Field(i).IsExported() {
+					walk(v.Field(i))
+				}
+			}
+		case reflect.Slice:
+			for i := 0; i < v.Len(); i++ {
+				walk(v.Index(i))
+			}
+		}
+	}
+	walk(v)
 }
 
 // server part ------------------------------------------------------------------------
@@ -595,5 +644,7 @@ func resolveSrv(raw []rawSrvOp) *SrvScenario {
 
 func genSrvScenario(t *rapid.T) *SrvScenario {
 	c := genCfg(t)
-	return resolveSrv(rapid.SliceOfN(rapid.Custom(c.rawSrvOp), 1, 14).Draw(t, "ops"))
+	sc := resolveSrv(rapid.SliceOfN(rapid.Custom(c.rawSrvOp), 1, 14).Draw(t, "ops"))
+	sprinkleStray(t, reflect.ValueOf(sc))
+	return sc
 }
